@@ -34,6 +34,7 @@ import (
 	krpretty "github.com/kr/pretty"
 	"github.com/tidwall/gjson"
 	"github.com/tidwall/pretty"
+	"github.com/tidwall/sjson"
 )
 
 type mockT struct {
@@ -1102,6 +1103,99 @@ func (w *world) exec1(line string) {
 		}
 		fmt.Fprintln(w.ann, line)
 		fmt.Fprintf(w.out, "jsonfmt valid=%s parse=%s out=%s\n", verdict, verdict, hx(out))
+	case "jsonpath":
+		// jsonpath <o0|o1>[a] <hex doc> (<hex path> <value>)+ : the two library calls go-snaps' JSON matchers are
+		// made of (match/any.go, type.go, custom.go), called directly with sjson.Options{Optimistic: o1,
+		// ReplaceInPlace: false} (the suite passes go-snaps' own setting, read from the source, with the suffix
+		// `a`, and sometimes the other one), one or more steps left to right, for the comparison with the Lean
+		// model (lean/GoSnaps/JsonPath.lean).  <value> is `-` (look-up
+		// only), `s:<hex>` (a Go string) or `r:<hex>` (a JSON literal decoded into a Go value).  As in the
+		// matchers, the set is made only when the path exists; its result is the next step's document.  The
+		// JSON text sjson writes for the value (`enc`) is obtained from the library itself (set of element 0 of
+		// `[0]`) and appended to the line handed to the model.  `any=1`: match.Any(path).Placeholder(value) and
+		// match.Custom(path, func → value) applied to the same document give the same bytes (and for a missing
+		// path: one "path does not exist" error and the unchanged document) — checked when the suffix `a` is there.
+		doc := []byte(unhx(tok[2]))
+		opts := &sjson.Options{Optimistic: strings.HasPrefix(tok[1], "o1"), ReplaceInPlace: false}
+		viaMatchers := strings.HasSuffix(tok[1], "a")
+		ann := "jsonpath " + tok[1] + " " + tok[2]
+		res := "jsonpath"
+		for i := 3; i+1 < len(tok); i += 2 {
+			pth, vs := unhx(tok[i]), tok[i+1]
+			var value any
+			has := vs != "-"
+			if strings.HasPrefix(vs, "s:") {
+				value = unhx(vs[2:])
+			} else if strings.HasPrefix(vs, "r:") {
+				value = decodeLit(unhx(vs[2:]))
+			}
+			enc := ""
+			if has {
+				e, err := sjson.SetBytesOptions([]byte("[0]"), "0", value, opts)
+				if err != nil || len(e) < 2 {
+					panic("jsonpath: cannot encode value")
+				}
+				enc = string(e[1 : len(e)-1])
+			}
+			ann += " " + tok[i] + " " + vs + " " + hx(enc)
+			r := gjson.GetBytes(doc, pth)
+			if !r.Exists() {
+				anyOK := "1"
+				if has && viaMatchers {
+					ao, errs := match.Any(pth).Placeholder(value).JSON(append([]byte(nil), doc...))
+					co, cerrs := match.Custom(pth, func(any) (any, error) { return value, nil }).JSON(append([]byte(nil), doc...))
+					if len(errs) != 1 || errs[0].Reason.Error() != "path does not exist" || !bytes.Equal(ao, doc) ||
+						len(cerrs) != 1 || cerrs[0].Reason.Error() != "path does not exist" || co != nil {
+						anyOK = "0"
+					}
+				}
+				res += fmt.Sprintf(" exists=0 idx=- get=- enc=%s set=- valid=- get2=- any=%s", hx(enc), anyOK)
+				continue
+			}
+			idx := "-"
+			if len(r.Indexes) > 0 {
+				parts := make([]string, len(r.Indexes))
+				for k, x := range r.Indexes {
+					parts[k] = strconv.Itoa(x)
+				}
+				idx = strings.Join(parts, ",")
+			} else if r.Index > 0 {
+				idx = strconv.Itoa(r.Index)
+			}
+			if !has {
+				res += fmt.Sprintf(" exists=1 idx=%s get=%s enc=- set=- valid=- get2=- any=1", idx, hx(r.Raw))
+				continue
+			}
+			keep := append([]byte(nil), doc...)
+			out, err := sjson.SetBytesOptions(doc, pth, value, opts)
+			if err != nil {
+				res += fmt.Sprintf(" exists=1 idx=%s get=%s enc=%s set=!%s valid=- get2=- any=-", idx, hx(r.Raw), hx(enc), hx(err.Error()))
+				continue
+			}
+			anyOK := "1"
+			if !bytes.Equal(keep, doc) {
+				anyOK = "0:input-modified"
+			}
+			if viaMatchers {
+				ao, errs := match.Any(pth).Placeholder(value).JSON(append([]byte(nil), keep...))
+				co, cerrs := match.Custom(pth, func(any) (any, error) { return value, nil }).JSON(append([]byte(nil), keep...))
+				if len(errs) != 0 || !bytes.Equal(ao, out) || len(cerrs) != 0 || !bytes.Equal(co, out) {
+					anyOK = "0:" + hx(string(ao))
+				}
+			}
+			valid := "0"
+			if gjson.ValidBytes(out) {
+				valid = "1"
+			}
+			g2 := "!missing"
+			if r2 := gjson.GetBytes(out, pth); r2.Exists() {
+				g2 = hx(r2.Raw)
+			}
+			res += fmt.Sprintf(" exists=1 idx=%s get=%s enc=%s set=%s valid=%s get2=%s any=%s", idx, hx(r.Raw), hx(enc), hx(string(out)), valid, g2, anyOK)
+			doc = append([]byte(nil), out...)
+		}
+		fmt.Fprintln(w.ann, ann)
+		fmt.Fprintln(w.out, res)
 	case "pdiff":
 		// white-box: the report builder on its own
 		rep := prettyDiff(unhx(tok[1]), unhx(tok[2]), unhx(tok[3]), atoi(tok[4]))
